@@ -25,7 +25,7 @@ package server
 
 //@ func server.(*serverStream).SendMsg
 //@   nopanic[C12.nopanic]
-//@   atcall[C06.message_shape C02.message_shape C04.headers_with_first_message] (types.RpcReadWriter).Write :
+//@   atcall[C06.message_shape C02.message_shape C04.headers_with_first_message C05.message_shape] (types.RpcReadWriter).Write :
 //@     | arg2 != nil && arg2.Id == ss.id && arg2.Header != nil && arg2.Header.Method == ss.method && arg2.Header.Source == ss.src && arg2.Header.Destination == ss.dst
 //@     | && arg2.Body != nil && arg2.Body.Data == bsContent(body) && arg2.Status == nil && arg2.Trailer == nil && arg2.Reset_ == nil && arg1 == ss.ctx
 //@     | && (atlock(ss.protected.headersSent) ==> arg2.Header.Headers == nil) && (!atlock(ss.protected.headersSent) ==> isKvOf(arg2.Header.Headers, atlock(ss.protected.headers)))
